@@ -65,6 +65,10 @@ def setIdxNegE {α} (xs : List α) (c : Nat) (v : α) (site : String) : Except E
 def readDefE {α} (d : Bool) (v : α) (_name : String) : Except Err α :=
   if d then .ok v else .error (.other "UnboundLocalError")
 
+/-- value of an optional scalar parameter (`x=None`); using it while it is None is a TypeError -/
+def readOptE {α} (present : Bool) (v : α) (_name : String) : Except Err α :=
+  if present then .ok v else .error (.typeError "NoneType")
+
 /-- `np.zeros(n, dtype)` (dtype is not modelled) -/
 def npZeros (n : Int) : Except Err (List Int) :=
   if n < 0 then .error (.valueError "negative dimensions are not allowed") else .ok (List.replicate n.toNat 0)
@@ -210,6 +214,10 @@ def Val.asBArr? : Val → Option (List Bool)
   | _ => Option.none
 def Val.asArr2? : Val → Option (List (List Int))
   | .arr2 a => some a
+  | _ => Option.none
+def Val.asOptInt? : Val → Option (Option Int)
+  | .int i => some (some i)
+  | .none => some Option.none
   | _ => Option.none
 def Val.asOptArr? : Val → Option (Option (List Int))
   | .arr a => some (some a)
